@@ -1,0 +1,59 @@
+//go:build verif
+
+// Contracts for package goruntime, read as text by /verif/engine (govc); no code.
+
+package goruntime
+
+//@ mode bv
+
+//@ func mSysStatInc(p *uint64, n uintptr)
+//@   trusted
+//@   modifies *p
+
+//@ spec roundUp(x uintptr) uintptr = (x + 4095) &^ 4095
+
+// sysReserve: reservation for the Go allocator; a request that does not fit
+// panics (the runtime cannot continue), so only the returning paths are
+// constrained.
+//@ func sysReserve(_ unsafe.Pointer, size uintptr, reserved *bool) (p unsafe.Pointer)
+//@   property C07
+//@   maypanic
+//@   requires vmm.wfReserve()
+//@   requires reserved != nil
+//@   modifies vmm.earlyReserveLastUsed, *reserved
+//@   ensures wf:      vmm.wfReserve()
+//@   ensures aligned: addrof(p)&0xfff == 0 && addrof(p) == vmm.earlyReserveLastUsed && addrof(p) <= old(vmm.earlyReserveLastUsed)
+//@   ensures atleast: old(vmm.earlyReserveLastUsed) - addrof(p) >= size
+//@   ensures tight:   old(vmm.earlyReserveLastUsed) - addrof(p) - size < 4096
+//@   ensures flag:    *reserved
+
+//@ func sysMap(virtAddr unsafe.Pointer, size uintptr, reserved bool, sysStat *uint64) (p unsafe.Pointer)
+//@   property C07
+//@   maypanic
+//@   raw virtAddr
+//@   requires vmm.mapCalls < 0x10000000000000
+//@   modifies vmm.mapCalls, vmm.mapLogPage, vmm.mapLogFrame, vmm.mapLogFlags, mem, *sysStat
+//@   ensures start: !isnil(p) ==> addrof(p) == roundUp(addrof(virtAddr))
+//@   ensures count: !isnil(p) ==> (vmm.mapCalls - old(vmm.mapCalls))*4096 >= size && (vmm.mapCalls - old(vmm.mapCalls))*4096 - size < 4096
+//@   ensures calls: !isnil(p) ==> forall(k, uintptr, k < vmm.mapCalls - old(vmm.mapCalls) ==> vmm.mapLogPage[old(vmm.mapCalls)+k] == mm.Page(roundUp(addrof(virtAddr)) >> 12) + mm.Page(k) && vmm.mapLogFrame[old(vmm.mapCalls)+k] == vmm.ReservedZeroedFrame && vmm.mapLogFlags[old(vmm.mapCalls)+k] == vmm.FlagPresent|vmm.FlagNoExecute|vmm.FlagCopyOnWrite)
+//@   loop 1 (pageCount > 0) invariant pageCount <= regionSize >> 12
+//@   loop 1 invariant n: vmm.mapCalls == old(vmm.mapCalls) + ((regionSize >> 12) - pageCount)
+//@   loop 1 invariant cur: page == mm.Page(regionStartAddr >> 12) + mm.Page((regionSize >> 12) - pageCount)
+//@   loop 1 invariant log: forall(k, uintptr, k < vmm.mapCalls - old(vmm.mapCalls) ==> vmm.mapLogPage[old(vmm.mapCalls)+k] == mm.Page(regionStartAddr >> 12) + mm.Page(k) && vmm.mapLogFrame[old(vmm.mapCalls)+k] == vmm.ReservedZeroedFrame && vmm.mapLogFlags[old(vmm.mapCalls)+k] == vmm.FlagPresent|vmm.FlagNoExecute|vmm.FlagCopyOnWrite)
+//@   loop 1 decreases pageCount
+
+//@ func sysAlloc(size uintptr, sysStat *uint64) (p unsafe.Pointer)
+//@   property C07
+//@   requires vmm.wfReserve()
+//@   requires vmm.mapCalls < 0x10000000000000
+//@   modifies vmm.earlyReserveLastUsed, vmm.mapCalls, vmm.mapLogPage, vmm.mapLogFrame, vmm.mapLogFlags, mm.allocState, mem, *sysStat
+//@   ensures wf:      vmm.wfReserve()
+//@   ensures region:  !isnil(p) ==> addrof(p)&0xfff == 0 && addrof(p) == vmm.earlyReserveLastUsed && old(vmm.earlyReserveLastUsed) - addrof(p) >= size && old(vmm.earlyReserveLastUsed) - addrof(p) - size < 4096
+//@   ensures count:   !isnil(p) ==> (vmm.mapCalls - old(vmm.mapCalls))*4096 == old(vmm.earlyReserveLastUsed) - addrof(p)
+//@   ensures calls:   !isnil(p) ==> forall(k, uintptr, k < vmm.mapCalls - old(vmm.mapCalls) ==> vmm.mapLogPage[old(vmm.mapCalls)+k] == mm.Page(addrof(p) >> 12) + mm.Page(k) && vmm.mapLogFlags[old(vmm.mapCalls)+k] == vmm.FlagPresent|vmm.FlagNoExecute|vmm.FlagRW)
+//@   loop 1 (pageCount > 0) invariant pageCount <= regionSize >> 12
+//@   loop 1 invariant n: vmm.mapCalls == old(vmm.mapCalls) + ((regionSize >> 12) - pageCount)
+//@   loop 1 invariant cur: page == mm.Page(regionStartAddr >> 12) + mm.Page((regionSize >> 12) - pageCount)
+//@   loop 1 invariant log: forall(k, uintptr, k < vmm.mapCalls - old(vmm.mapCalls) ==> vmm.mapLogPage[old(vmm.mapCalls)+k] == mm.Page(regionStartAddr >> 12) + mm.Page(k) && vmm.mapLogFlags[old(vmm.mapCalls)+k] == vmm.FlagPresent|vmm.FlagNoExecute|vmm.FlagRW)
+//@   loop 1 invariant vmm.earlyReserveLastUsed == regionStartAddr
+//@   loop 1 decreases pageCount
